@@ -710,6 +710,22 @@ class Inliner:
                     continue
                 stores = sum(1 for n in ast.walk(m.tree) if isinstance(n, ast.Name) and n.id == nm and isinstance(n.ctx, (ast.Store, ast.Del)))
                 glob = any(isinstance(n, ast.Global) and nm in n.names for n in ast.walk(m.tree))
+                if any(isinstance(n, ast.Name) for n in ast.walk(expr)):
+                    # a constant spelled through constants accepted before it (SUFFIX = STEM + ".css"): written out, text + text joined
+                    me_consts, mod_name = self.new_consts, m.name
+
+                    class _Known(ast.NodeTransformer):
+                        def visit_Name(self, n):
+                            k = me_consts.get(f"{mod_name}.{n.id}")
+                            return copy.deepcopy(k) if k is not None and isinstance(n.ctx, ast.Load) and isinstance(k, ast.Constant) else n
+
+                        def visit_BinOp(self, n):
+                            self.generic_visit(n)
+                            if isinstance(n.op, ast.Add) and isinstance(n.left, ast.Constant) and isinstance(n.right, ast.Constant) and isinstance(n.left.value, str) and isinstance(n.right.value, str):
+                                return ast.copy_location(ast.Constant(value=n.left.value + n.right.value), n)
+                            return n
+                    expr = _Known().visit(copy.deepcopy(expr))
+                    ast.fix_missing_locations(expr)
                 if stores == 1 and not glob and is_const_expr(expr) and (not isinstance(expr, (ast.Dict, ast.List, ast.Set)) or never_mutated(project, nm)):
                     self.new_consts[q] = expr       # (a dict / list / set display counts only if nothing in the package writes into an object of that name)
                 elif stores == 1 and not glob and isinstance(expr, (ast.Dict, ast.Tuple)) and never_mutated(project, nm) and self.function_table(m, expr):
@@ -1918,6 +1934,7 @@ def normalize(project) -> List[str]:
                 n += unfold_reduce(fn, _Scope(project, fi_of[id(fn)]).resolve)
             n += hoist_lambda_calls(fn)
             n += _n2mod.expand_sliced_star(fn)
+            n += _n2mod.sink_selected_value(fn)
             n += simplify_defensive(fn)
             n += recover_loops(fn)
             n += recover_loops(fn)      # (an index loop recovered from a while loop is looked at again once it is part of the tree)
